@@ -12,4 +12,7 @@ LEVEL_NOTE = "necessary conditions only"
 
 
 def run(ctx):
+    from . import races
+    races.R1(ctx)
+    races.R2(ctx)
     g_sync.run_all(ctx, ["Y1", "Y1c", "Y2", "Y3", "Y4", "O4", "O5"])
